@@ -592,7 +592,7 @@ func init() {
 		Technique: "Go race detector over a concurrent workload + serial-result comparison of every concurrent Execute + porcupine linearizability check of recorded global/dev-mode-template register histories",
 		Rule: "each case is one round: 16 (thorough 32) goroutines issue 120 (400) random operations on one Set: GetTemplate+Execute of 10 stable templates (one of them includes a template that does not parse) (extends/import/blocks, ranges of every ranger kind incl. nested, field access on struct types minted per execution or shared by ~16 consecutive executions of different goroutines (first met concurrently), include, try, functions, escaping) and of 5 generated template sets per round, each through its main template and up to two other entry points (the program generator with blocks, includes, try, failures, SafeWriters, exec switched on; each on a cold Set of its own shared by all goroutines), first-time loads of 6 templates requested by several goroutines at once, Parse+Execute, AddGlobal/LookupGlobal/executions rendering a global, " +
 			"Parse+Execute on a Set with custom action and comment delimiters, and on a development-mode Set InMemLoader.Set/Delete versus GetTemplate+Execute; the recording loader/cache yield or sleep 0-80us inside every call; oracles: zero race-detector reports and no fatal error (worker death), every concurrent Execute on unedited inputs equals the output computed alone beforehand, " +
-			"the timed history of writes (AddGlobal, loader Set with unique tokens) and reads (LookupGlobal, rendering executions) is linearizable as one register per key (porcupine, 60 s timeout = inconclusive); non-trivial/distinct = rounds (each with its own interleavings; overlapping operation pairs and first-time loads are reported)",
+			"the timed history of writes (AddGlobal, loader Set with unique tokens) and reads (LookupGlobal, rendering executions) is linearizable as one register per key (porcupine, 60 s timeout = inconclusive); non-trivial/distinct = rounds (each with its own interleavings; overlapping operation pairs and first-time loads are reported) Since waves 8/9: every minted struct type carries two names promoted both by value (depth 3) and through an embedded pointer (depth 1), read by two templates in either order; each round ends with a loader storm (lookups on the development-mode Set and direct loader reads against Set/Delete of other entries in tight loops); a round that does not finish is examined through stop-the-world goroutine snapshots every 10 s: all unfinished workload goroutines parked on sync primitives inside jet = c11:deadlock.",
 		Assumptions: []string{"interleavings are those the scheduler produced in this run (reported as overlapping pairs), not all interleavings", "non-development first loads are not modelled as registers (two concurrent first loads may cache either version)"},
 		NCases:      c11n,
 		RunCase:     c11run,
